@@ -411,6 +411,178 @@ Proof.
   apply IH. now apply step_inv.
 Qed.
 
+(* ------------------------------------------------------------------ slots of the buffer, and absence of deadlock *)
+
+Definition past (c : pc) : nat := match c with PRead _ | PInc _ _ | PWrite _ _ _ => 1 | _ => 0 end.
+
+(* every reserved slot belongs to a batch that has its number and is not drained yet, or to a flusher between
+   `reserved <-` and `nextSeqNum++`; the time-out goroutine never calls batcher.Add *)
+Definition Inv2C (a t : pc) (s : rstate) : Prop :=
+  reserved s = (nextseq s - drained s) + past a + past t /\ t <> PAdded.
+Definition Inv2 (s : rstate) : Prop := Inv2C (apc s) (tpc s) s.
+
+Lemma drain_loop_res : forall fuel d its res (o : list R) d' its' res' o',
+  drain_loop fuel d its res o = (d', its', res', o') ->
+  d <= d' /\ (d' - d <= res -> res' + (d' - d) = res).
+Proof.
+  induction fuel as [|fuel IH]; intros d its res o d' its' res' o' H; cbn [drain_loop] in H.
+  - inversion H; subst. split; lia.
+  - destruct (lookup d its) as [r|].
+    + apply IH in H. destruct H as [H1 H2]. split; [lia|]. intros Hle.
+      assert (Hp : d' - S d <= Nat.pred res) by lia. specialize (H2 Hp). lia.
+    + inversion H; subst. split; lia.
+Qed.
+
+Lemma flush_step_inv2 : forall c o s c' s',
+  InvC c o s -> reserved s = (nextseq s - drained s) + past c + past o ->
+  flush_step p c s = Some (c', s') ->
+  reserved s' = (nextseq s' - drained s') + past c' + past o.
+Proof.
+  intros c o s c' s' HI H2 Hstep. destruct HI.
+  destruct c as [| | |ev|ev|ev seq|ev seq r]; cbn [flush_step] in Hstep; try discriminate.
+  - destruct (rp_fixed p && flock s); [discriminate|].
+    destruct (is_nil (fst (b_flush current_batch (bt s)))); inversion Hstep; subst; cbn [past reserved nextseq drained] in *; lia.
+  - destruct (Nat.ltb (reserved s) (max_items p)); inversion Hstep; subst; cbn [past set_reserved reserved nextseq drained] in *. lia.
+  - inversion Hstep; subst; cbn [past] in *; lia.
+  - inversion Hstep; subst; cbn [past] in *; lia.
+  - inversion Hstep; subst. cbn [crit_ok] in inv_a0. destruct inv_a0 as [fl [_ [_ [_ Hr]]]]. subst r.
+    cbn [past reserved nextseq drained] in *. lia.
+Qed.
+
+Lemma step_inv2 : forall a s, Inv s -> Inv2 s -> Inv2 (step fetch p a s).
+Proof.
+  intros a s HI [Hres Hnt]. unfold step. destruct (step_opt fetch p a s) as [s'|] eqn:E; [|split; assumption].
+  unfold Inv2, Inv2C. destruct a; cbn [step_opt] in E.
+  - (* adder *)
+    unfold adder_step in E. destruct (apc s) eqn:Ea.
+    + destruct (script s) as [|[x|] sc]; [discriminate| |]; inversion E; subst; cbn [apc tpc reserved nextseq drained past] in *;
+        split; assumption.
+    + inversion E; subst. cbn [set_apc apc tpc reserved nextseq drained] in *.
+      split; [|assumption]. destruct (b_full (rp_b p) (bt s)); cbn [past] in *; assumption.
+    + destruct (flush_step p PFlush s) as [[c' s1]|] eqn:F; [|discriminate]. inversion E; subst.
+      destruct (flush_step_pcs _ _ _ _ F) as [_ Et]. cbn [set_apc apc tpc reserved nextseq drained]. rewrite Et.
+      split; [|assumption]. unfold Inv in HI. rewrite Ea in HI. exact (flush_step_inv2 _ _ _ _ _ HI Hres F).
+    + destruct (flush_step p (PReserve ev) s) as [[c' s1]|] eqn:F; [|discriminate]. inversion E; subst.
+      destruct (flush_step_pcs _ _ _ _ F) as [_ Et]. cbn [set_apc apc tpc reserved nextseq drained]. rewrite Et.
+      split; [|assumption]. unfold Inv in HI. rewrite Ea in HI. exact (flush_step_inv2 _ _ _ _ _ HI Hres F).
+    + destruct (flush_step p (PRead ev) s) as [[c' s1]|] eqn:F; [|discriminate]. inversion E; subst.
+      destruct (flush_step_pcs _ _ _ _ F) as [_ Et]. cbn [set_apc apc tpc reserved nextseq drained]. rewrite Et.
+      split; [|assumption]. unfold Inv in HI. rewrite Ea in HI. exact (flush_step_inv2 _ _ _ _ _ HI Hres F).
+    + destruct (flush_step p (PInc ev seq) s) as [[c' s1]|] eqn:F; [|discriminate]. inversion E; subst.
+      destruct (flush_step_pcs _ _ _ _ F) as [_ Et]. cbn [set_apc apc tpc reserved nextseq drained]. rewrite Et.
+      split; [|assumption]. unfold Inv in HI. rewrite Ea in HI. exact (flush_step_inv2 _ _ _ _ _ HI Hres F).
+    + destruct (flush_step p (PWrite ev seq r) s) as [[c' s1]|] eqn:F; [|discriminate]. inversion E; subst.
+      destruct (flush_step_pcs _ _ _ _ F) as [_ Et]. cbn [set_apc apc tpc reserved nextseq drained]. rewrite Et.
+      split; [|assumption]. unfold Inv in HI. rewrite Ea in HI. exact (flush_step_inv2 _ _ _ _ _ HI Hres F).
+  - (* time-out goroutine *)
+    unfold timeout_step in E. unfold Inv in HI. apply InvC_sym in HI.
+    assert (Hres' : reserved s = nextseq s - drained s + past (tpc s) + past (apc s)) by lia.
+    destruct (tpc s) eqn:Et.
+    + destruct (inflight s); [discriminate|]. inversion E; subst.
+      cbn [set_tpc set_inflight apc tpc reserved nextseq drained past] in *. split; [assumption|discriminate].
+    + discriminate.
+    + destruct (flush_step p PFlush s) as [[c' s1]|] eqn:F; [|discriminate]. inversion E; subst.
+      destruct (flush_step_pcs _ _ _ _ F) as [Ea _]. cbn [set_tpc apc tpc reserved nextseq drained]. rewrite Ea.
+      pose proof (flush_step_inv2 _ _ _ _ _ HI Hres' F) as H. split; [lia|].
+      intros ->. cbn [flush_step] in F. destruct (rp_fixed p && flock s); [discriminate|].
+      destruct (is_nil (fst (b_flush current_batch (bt s)))); inversion F.
+    + destruct (flush_step p (PReserve ev) s) as [[c' s1]|] eqn:F; [|discriminate]. inversion E; subst.
+      destruct (flush_step_pcs _ _ _ _ F) as [Ea _]. cbn [set_tpc apc tpc reserved nextseq drained]. rewrite Ea.
+      pose proof (flush_step_inv2 _ _ _ _ _ HI Hres' F) as H. split; [lia|].
+      intros ->. cbn [flush_step] in F. destruct (Nat.ltb (reserved s) (max_items p)); inversion F.
+    + destruct (flush_step p (PRead ev) s) as [[c' s1]|] eqn:F; [|discriminate]. inversion E; subst.
+      destruct (flush_step_pcs _ _ _ _ F) as [Ea _]. cbn [set_tpc apc tpc reserved nextseq drained]. rewrite Ea.
+      pose proof (flush_step_inv2 _ _ _ _ _ HI Hres' F) as H. split; [lia|]. intros ->. inversion F.
+    + destruct (flush_step p (PInc ev seq) s) as [[c' s1]|] eqn:F; [|discriminate]. inversion E; subst.
+      destruct (flush_step_pcs _ _ _ _ F) as [Ea _]. cbn [set_tpc apc tpc reserved nextseq drained]. rewrite Ea.
+      pose proof (flush_step_inv2 _ _ _ _ _ HI Hres' F) as H. split; [lia|]. intros ->. inversion F.
+    + destruct (flush_step p (PWrite ev seq r) s) as [[c' s1]|] eqn:F; [|discriminate]. inversion E; subst.
+      destruct (flush_step_pcs _ _ _ _ F) as [Ea _]. cbn [set_tpc apc tpc reserved nextseq drained]. rewrite Ea.
+      pose proof (flush_step_inv2 _ _ _ _ _ HI Hres' F) as H. split; [lia|]. intros ->. inversion F.
+  - unfold timer_fire in E. destruct (armed (bt s)); [|discriminate]. inversion E; subst.
+    cbn [set_inflight apc tpc reserved nextseq drained]. split; assumption.
+  - unfold complete_step in E. destruct (nth_error (fetchers s) i) as [[seq ev [|]]|]; try discriminate.
+    inversion E; subst. cbn [apc tpc reserved nextseq drained]. split; assumption.
+  - unfold drain_step in E. destruct (nth_error (fetchers s) i) as [[seq ev [|]]|]; try discriminate.
+    destruct (drain_loop (S (length (items s))) (drained s) (items s) (reserved s) (out s)) as [[[d its] res] o] eqn:Ed.
+    inversion E; subst. cbn [apc tpc reserved nextseq drained]. split; [|assumption].
+    unfold Inv in HI. destruct HI.
+    destruct (drain_loop_inv (flushed s) (nextseq s) _ _ _ _ _ _ _ _ _ (Nat.lt_succ_diag_r _) inv_items0 inv_dn0 inv_out0 Ed)
+      as (D1 & D2 & _).
+    destruct (drain_loop_res _ _ _ _ _ _ _ _ _ Ed) as [_ D3]. lia.
+Qed.
+
+Lemma Inv2_init : forall sc, Inv2 (r_init sc).
+Proof. intros sc. split; cbn; [reflexivity|discriminate]. Qed.
+
+Lemma run_inv12 : forall acts s, Inv s -> Inv2 s -> Inv (run fetch p acts s) /\ Inv2 (run fetch p acts s).
+Proof.
+  intros acts. induction acts as [|a acts IH]; intros s H1 H2; cbn [run fold_left]; [now split|].
+  apply IH; [now apply step_inv|now apply step_inv2].
+Qed.
+
+Lemma max_items_pos : 0 < max_items p.
+Proof.
+  unfold max_items. destruct (N.eqb (rp_buf p) 0) eqn:E; [lia|]. apply N.eqb_neq in E. lia.
+Qed.
+
+(* a flusher that is somewhere inside flush() can always take its next step, unless it waits for the lock or for a slot *)
+Lemma no_deadlock_inv : forall s, Inv s -> Inv2 s -> quiescent s = false -> exists a, step_opt fetch p a s <> None.
+Proof.
+  intros s HI [Hres Hnt] Hq.
+  destruct (fetchers s) as [|[seq ev st] fs] eqn:Ef.
+  2:{ destruct st; [exists (AComplete 0)|exists (ADrain 0)]; cbn [step_opt]; unfold complete_step, drain_step; rewrite Ef; cbn [nth_error].
+      - discriminate.
+      - destruct (drain_loop (S (length (items s))) (drained s) (items s) (reserved s) (out s)) as [[[d its] res] o]. discriminate. }
+  unfold Inv in HI. destruct HI.
+  assert (Hd : drained s = nextseq s).
+  { destruct (Nat.eq_dec (drained s) (nextseq s)) as [E|E]; [assumption|exfalso].
+    destruct (inv_cover0 (drained s)) as [[f [Hin _]]|Hl]; [lia| |].
+    - rewrite Ef in Hin. contradiction.
+    - destruct (inv_pend0 Hl) as [f [Hin _]]. rewrite Ef in Hin. contradiction. }
+  assert (Hres0 : reserved s = past (apc s) + past (tpc s)) by lia.
+  pose proof max_items_pos as Hmax.
+  (* a thread inside the critical section can always move *)
+  assert (Hcrit : forall c o, reserved s = past c + past o -> in_crit c = true -> in_crit o = false ->
+                              flush_step p c s <> None).
+  { intros c o Hr Hc Ho. destruct c; cbn in Hc; try discriminate; cbn [flush_step]; try discriminate.
+    assert (Hpo : past o = 0) by (destruct o; cbn in *; try reflexivity; discriminate).
+    cbn [past] in Hr. assert (Hlt : Nat.ltb (reserved s) (max_items p) = true) by (apply Nat.ltb_lt; lia).
+    rewrite Hlt. discriminate. }
+  destruct (in_crit (apc s)) eqn:Ca.
+  - exists AAdder. cbn [step_opt]. unfold adder_step.
+    assert (Ct : in_crit (tpc s) = false) by exact inv_excl0.
+    specialize (Hcrit (apc s) (tpc s) Hres0 Ca Ct).
+    destruct (apc s); cbn in Ca; try discriminate; destruct (flush_step p _ s) as [[c' s1]|]; try discriminate; now contradiction Hcrit.
+  - destruct (in_crit (tpc s)) eqn:Ct.
+    + exists ATimeout. cbn [step_opt]. unfold timeout_step.
+      assert (Hres1 : reserved s = past (tpc s) + past (apc s)) by lia.
+      specialize (Hcrit (tpc s) (apc s) Hres1 Ct Ca).
+      destruct (tpc s); cbn in Ct; try discriminate; destruct (flush_step p _ s) as [[c' s1]|]; try discriminate; now contradiction Hcrit.
+    + (* nobody holds the lock *)
+      assert (Hfl : flock s = false) by exact inv_lock0.
+      destruct (apc s) eqn:Ea; cbn in Ca; try discriminate.
+      * (* adder idle *)
+        destruct (script s) as [|o sc] eqn:Es.
+        -- destruct (tpc s) eqn:Et; cbn in Ct; try discriminate.
+           ++ unfold quiescent in Hq. rewrite Es, Ea, Et, Ef in Hq. discriminate.
+           ++ now contradiction Hnt.
+           ++ exists ATimeout. cbn [step_opt]. unfold timeout_step. rewrite Et. cbn [flush_step]. rewrite Hfl, andb_false_r.
+              destruct (is_nil (fst (b_flush current_batch (bt s)))); discriminate.
+        -- exists AAdder. cbn [step_opt]. unfold adder_step. rewrite Ea, Es. destruct o; discriminate.
+      * exists AAdder. cbn [step_opt]. unfold adder_step. rewrite Ea. discriminate.
+      * exists AAdder. cbn [step_opt]. unfold adder_step. rewrite Ea. cbn [flush_step]. rewrite Hfl, andb_false_r.
+        destruct (is_nil (fst (b_flush current_batch (bt s)))); discriminate.
+Qed.
+
+Theorem reorder_no_deadlock_proof : forall (sc : list (aop T)) (acts : list action),
+  let s := run fetch p acts (r_init sc) in
+  quiescent s = false -> exists a, step_opt fetch p a s <> None.
+Proof.
+  intros sc acts s. destruct (run_inv12 acts (r_init sc) (Inv_init sc) (Inv2_init sc)) as [H1 H2].
+  now apply no_deadlock_inv.
+Qed.
+
 (* ------------------------------------------------------------------ consequences of the invariant *)
 
 Definition prefix {A} (a b : list A) : Prop := exists c, b = a ++ c.
@@ -494,10 +666,14 @@ Definition old_swap_schedule : list action :=
    ATimeout; ATimeout; ATimeout; ATimeout;                          (* time-out flusher: Reserve -> seq 1; go *)
    AComplete 0; ADrain 0].                                          (* the fetch of [2;3] completes: emitted first *)
 
-Lemma old_code_swaps : let s := run (fun l : list N => l) old_params old_swap_schedule (r_init old_script) in
-  flushed s = [[1%N]; [2%N; 3%N]] /\ out s = [2%N; 3%N] /\
-  is_prefix_of N.eqb (out s) (concat (map (fun l => l) (flushed s))) = false.
-Proof. vm_compute. repeat split. Qed.
+Definition old_swap_state : rstate N N :=
+  Eval vm_compute in run (fun l : list N => l) old_params old_swap_schedule (r_init old_script).
+Lemma old_swap_run : run (fun l : list N => l) old_params old_swap_schedule (r_init old_script) = old_swap_state.
+Proof. vm_compute. reflexivity. Qed.
+Lemma old_code_swaps : flushed old_swap_state = [[1%N]; [2%N; 3%N]] /\ out old_swap_state = [2%N; 3%N].
+Proof. split; reflexivity. Qed.
+Lemma old_swap_not_prefix : ~ prefix (out old_swap_state) (concat (map (fun l : list N => l) (flushed old_swap_state))).
+Proof. intros H. apply prefix_is_prefix_of in H. vm_compute in H. discriminate H. Qed.
 
 (* (ii) both flushers read the same nextSeqNum: two batches get number 0, one result overwrites the other in the map and
    the fetcher comes to rest having emitted [1] only: items 2 and 3 are lost. *)
@@ -507,6 +683,13 @@ Definition old_dup_schedule : list action :=
    ATimeout; ATimeout;                                              (* time-out flusher: nextSeqNum = 2; go with seq 0 *)
    AComplete 0; AComplete 1; ADrain 0; ADrain 0].
 
-Lemma old_code_loses : let s := run (fun l : list N => l) old_params old_dup_schedule (r_init old_script) in
-  quiescent s = true /\ added s = [1%N; 2%N; 3%N] /\ batch (bt s) = [] /\ out s = [1%N].
-Proof. vm_compute. repeat split. Qed.
+Definition old_dup_state : rstate N N :=
+  Eval vm_compute in run (map (fun x : N => x)) old_params old_dup_schedule (r_init old_script).
+Lemma old_dup_run : run (map (fun x : N => x)) old_params old_dup_schedule (r_init old_script) = old_dup_state.
+Proof. vm_compute. reflexivity. Qed.
+Lemma old_code_loses :
+  quiescent old_dup_state = true /\ batch (bt old_dup_state) = [] /\
+  out old_dup_state <> map (fun x : N => x) (added old_dup_state).
+Proof. split; [reflexivity|]. split; [reflexivity|]. vm_compute. intros H. discriminate H. Qed.
+Lemma old_code_loses_values : added old_dup_state = [1%N; 2%N; 3%N] /\ out old_dup_state = [1%N].
+Proof. split; reflexivity. Qed.
